@@ -9,6 +9,7 @@ import (
 	"errors"
 	"fmt"
 	"sort"
+	"strings"
 	"sync"
 
 	"github.com/LiskHQ/lisk-engine/pkg/blockchain"
@@ -252,12 +253,65 @@ type MockABI struct {
 	Inconsistencies []string
 	// LogCalls can be switched off for long runs.
 	LogCalls bool
+	// ConsensusSeen: what the engine told the application about the consensus state (labi.Consensus argument of
+	// BeforeTransactionsExecute / AfterTransactionsExecute / ExecuteTransaction), one entry per call, when
+	// RecordConsensus is set. A real application may make state and events depend on every field of it, so a block
+	// must be given the same values when it is generated and when it is validated.
+	RecordConsensus bool
+	ConsensusSeen   []ConsensusSeen
 
 	roots    []rootEntry
 	contexts map[string]*abiContext
 	ctxSeq   uint64
 	inject   map[Hook]int // hook -> number of upcoming calls that fail
 	fired    []Hook       // hooks whose injected failure was consumed since the last TakeFired
+}
+
+// ConsensusSeen is one labi.Consensus argument the application received.
+type ConsensusSeen struct {
+	Hook   Hook
+	Height uint32
+	TxID   string // ExecuteTransaction only
+	Digest string // every field of the argument ("nil" for a missing argument)
+}
+
+// ConsensusDigest renders every field of a labi.Consensus.
+func ConsensusDigest(c *labi.Consensus) string {
+	if c == nil {
+		return "nil"
+	}
+	var sb strings.Builder
+	fmt.Fprintf(&sb, "implyMaxPrevote=%v maxHeightCertified=%d certificateThreshold=%d validators=", c.ImplyMaxPrevote, c.MaxHeightCertified, c.CertificateThreshold)
+	for _, v := range c.CurrentValidators {
+		if v == nil {
+			sb.WriteString("nil;")
+			continue
+		}
+		fmt.Fprintf(&sb, "%x:%d:%x:%x;", []byte(v.Address), v.BFTWeight, []byte(v.GeneratorKey), []byte(v.BLSKey))
+	}
+	return sb.String()
+}
+
+func (m *MockABI) seeConsensus(h Hook, ctx *abiContext, hdr *blockchain.BlockHeader, txID []byte, c *labi.Consensus) {
+	if !m.RecordConsensus {
+		return
+	}
+	e := ConsensusSeen{Hook: h, Digest: ConsensusDigest(c), TxID: hex.EncodeToString(txID)}
+	if ctx != nil && ctx.header != nil {
+		e.Height = ctx.header.Height
+	} else if hdr != nil {
+		e.Height = hdr.Height
+	}
+	m.ConsensusSeen = append(m.ConsensusSeen, e)
+}
+
+// TakeConsensusSeen returns and clears the recorded consensus arguments.
+func (m *MockABI) TakeConsensusSeen() []ConsensusSeen {
+	m.mu.Lock()
+	defer m.mu.Unlock()
+	r := m.ConsensusSeen
+	m.ConsensusSeen = nil
+	return r
 }
 
 // NewMockABI creates the mock application.
@@ -499,6 +553,7 @@ func (m *MockABI) BeforeTransactionsExecute(req *labi.BeforeTransactionsExecuteR
 		m.setScript(ctx, req.Assets)
 		err = m.fail(HookBeforeTxs, ctx)
 	}
+	m.seeConsensus(HookBeforeTxs, ctx, nil, nil, req.Consensus)
 	detail := ""
 	if req.Consensus != nil {
 		detail = fmt.Sprintf("implyMaxPrevote=%v mhc=%d certThreshold=%d validators=%d", req.Consensus.ImplyMaxPrevote, req.Consensus.MaxHeightCertified, req.Consensus.CertificateThreshold, len(req.Consensus.CurrentValidators))
@@ -561,6 +616,7 @@ func (m *MockABI) ExecuteTransaction(req *labi.ExecuteTransactionRequest) (*labi
 			err = fmt.Errorf("%w: scripted ExecuteTransaction error", ErrInjected)
 		}
 	}
+	m.seeConsensus(HookExecuteTx, ctx, req.Header, req.Transaction.ID, req.Consensus)
 	m.log(HookExecuteTx, ctx, fmt.Sprintf("tx=%x result=%d", []byte(req.Transaction.ID), res), err)
 	if err != nil {
 		return nil, err
@@ -586,6 +642,7 @@ func (m *MockABI) AfterTransactionsExecute(req *labi.AfterTransactionsExecuteReq
 		m.setScript(ctx, req.Assets)
 		err = m.fail(HookAfterTxs, ctx)
 	}
+	m.seeConsensus(HookAfterTxs, ctx, nil, nil, req.Consensus)
 	m.log(HookAfterTxs, ctx, fmt.Sprintf("txs=%d", len(req.Transactions)), err)
 	if err != nil {
 		return nil, err
